@@ -377,6 +377,11 @@ fn oracle(c: &Case, acc: &mut Acc) -> CaseResult {
                 (Ok(()), Some(w)) => ensure!(out[..32] == w[..], "{kind:?}: DH(priv {}, pub {}) differs from the standard\n snow: {}\n std:  {}", hex::encode(a), hex::encode(&peer), hex::encode(&out[..32]), hex::encode(&w)),
                 (Err(_), None) => ensure!(expect_err, "{kind:?}: both reject an input that should be valid"),
                 (Ok(()), None) => fail!("{kind:?}: snow accepts the public key {} which the standard implementation rejects", hex::encode(&peer)),
+                (Err(_), Some(w)) if *kind == DhKind::X25519 && w.iter().all(|b| *b == 0) => {
+                    // Noise rev34 12.1: an implementation may output all zeros OR signal an error for
+                    // inputs that produce an all-zero output; both are accepted
+                    acc.label("dh:x25519_low_order_rejected");
+                },
                 (Err(x), Some(_)) => fail!("{kind:?}: snow rejects the valid public key {} ({x:?})", hex::encode(&peer)),
             }
             acc.label(format!("dh:{}:edge{}", kind.name(), edge % 36));
